@@ -17,7 +17,7 @@ import (
 // --untracked-files=all --no-renames` for every (HEAD, index, worktree) triple.
 
 func init() {
-	fw.Register(&fw.Check{ID: "C27", Level: "exploration", Run: runC27, QuickBudget: 90, ThoroughBudget: 1200})
+	fw.Register(&fw.Check{ID: "C27", Level: "exploration", Run: runC27, QuickBudget: 150, ThoroughBudget: 1200})
 }
 
 // hTemplate is a repository holding one parentless commit per assignment of
